@@ -26,7 +26,7 @@ def correspondence(ctx):
     acc = (lambda p: p['style'] in styles) if styles else None
     r = FL.correspondence(ctx, PID, kw, 60, 1500, accept=acc)
     # the plugin layer: scripts come from the settings text, episodes also end with the print, pause / resume must not touch them
-    PS.merge_into(r, ctx, PID.lower() + 'p', 30, 600)
+    PS.merge_into(r, ctx, PID.lower() + 'p', 25, 500, extra=[PS.ext_edit_history(ctx.rng) for _ in range(ctx.n(15, 300))])
     return r
 
 
